@@ -457,6 +457,14 @@ class Interp:
                 if isinstance(v, IntV):
                     return v
             return IntV(None, None)
+        if d == "re.split" and len(c.args) >= 2:
+            pat, subj = self.eval(c.args[0], st), self.eval(c.args[1], st)
+            ms = self.eval(c.args[2], st) if len(c.args) > 2 else next((self.eval(k.value, st) for k in c.keywords if k.arg == "maxsplit"), IntV(0, 0))
+            if isinstance(pat, StrV) and isinstance(pat.exact, str) and isinstance(subj, StrV) and isinstance(subj.exact, str) and isinstance(ms, IntV) and ms.lo is not None and ms.lo == ms.hi:
+                try:
+                    return TupleV(tuple(lit(x) for x in re.split(pat.exact, subj.exact, maxsplit=ms.lo) if isinstance(x, str)))
+                except re.error:
+                    pass
         if d in ("re.fullmatch", "re.match", "re.search") and len(c.args) == 2 and not c.keywords:
             pat, subj = self.eval(c.args[0], st), self.eval(c.args[1], st)
             if isinstance(pat, StrV) and isinstance(pat.exact, str) and isinstance(subj, StrV) and isinstance(subj.exact, str):
